@@ -409,12 +409,14 @@ def storedForm (t : Tmpl) (p : POp) : POp :=
 def concretize (p : POp) : Option Op := evalOp ⟨fun _ _ => none, fun _ _ => none, fun _ _ _ _ _ => none, fun _ _ => (0, 0)⟩ [] p
 
 /-- One API call on a template, in Python statement order:
-`verify_parametrization` (which flips the sequence to parametrized *before* it checks the
-variables — finding F3), then either the concrete method body or the store-time checks. -/
+`verify_parametrization` (the variables of the arguments must be the sequence's own; only then
+does the sequence become parametrized — the order since the repair of finding F3), then either
+the concrete method body or the store-time checks. -/
 def tstep (t : Tmpl) (p : POp) : Tmpl × Option PErr :=
+  if p.isParam && !varsDeclared t p then (t, some .unknownVariable)
+  else
   let t1 : Tmpl := if p.isParam then { t with param := true } else t
-  if p.isParam && !varsDeclared t p then (t1, some .unknownVariable)
-  else if !t1.param then
+  if !t1.param then
     match concretize p with
     | none => (t1, some (.evalFailed 0))
     | some op =>
